@@ -68,6 +68,8 @@ class C20Check:
 
         import halmos.__main__ as hm
 
+        if ch.chance(0.1, "mode.invannot"):
+            return self.run_invariant_annotations(ch, keep_log)
         solver = "yices"  # one solver: what is compared is halmos with itself across histories
         threads = ch.choose([1, 2, 4], "sw.threads")
         layout = ch.choose(["solidity", "generic"], "sw.layout")
@@ -185,6 +187,74 @@ class C20Check:
         if keep_log:
             res["log"] = [("stdout", oh.stdout[-1500:]), ("code", rt.hex())]
         return res
+
+
+def _run_invariant_annotations(self, ch, keep_log=False):
+    """two invariant tests of one contract that differ only in a function-level `@custom:halmos --loop N` annotation, over a
+    target whose mutator loops: each test's result must be the same alone, first or second (options of one test must not leak into
+    what is explored for the other)"""
+    import halmos.__main__ as hm
+
+    from checks.c10 import Scenario
+
+    sc = Scenario(ch, force_kind="inv_loop")
+    other_loop = ch.choose([l for l in (1, 2, 3, 4, 6) if l != sc.loop], "ia.loop")
+    fns = dict(sc.fns)
+    fns["invariant_v2()"] = sc.fns[sc.sig]
+    abis = list(sc.abis) + [A.abi_item("invariant_v2()")]
+    rt = A.build_runtime(fns)
+    cj = A.contract_json("T", "test/T.sol", rt, abis, devdoc_methods={"invariant_v2()": {"custom:halmos": f"--loop {other_loop}"}})
+    bom = A.build_out_map([("T.sol", "T", cj)] + sc.extra_artifacts())
+    args = R.make_args(solver_threads=ch.choose([1, 2], "ia.threads"), panic_error_codes={1}, **sc.options)
+    sigs = [sc.sig, "invariant_v2()"]
+
+    def run(order):
+        def main():
+            ctx = R.make_contract_ctx(args, "T", "test/T.sol", cj, order, bom)
+            return hm.run_contract(ctx)
+        return R.run_under_sim(ch, main, solver="yices", keep_log=keep_log, max_steps=120000)
+
+    def summary(r):
+        return (r.exitcode, r.num_models, tuple(r.num_paths or ()), r.num_bounded_loops)
+
+    outs, vio, incon = [], [], None
+    solo = {}
+    for s_ in sigs:
+        o = run([s_])
+        outs.append(o)
+        if o.stub.wall_timeouts:
+            incon = "truthful-solver-wall-timeout"
+        solo[s_] = summary(o.results[0]) if o.results else None
+    order = ch.shuffle(sigs, "ia.order")
+    oh = run(order)
+    outs.append(oh)
+    if oh.stub.wall_timeouts:
+        incon = "truthful-solver-wall-timeout"
+    if oh.outcome == "deadlock":
+        vio.append(dict(oracle="C20:hang", disc="deadlock", detail=str(oh.sim.deadlock_info)))
+    elif incon is None and oh.results is not None:
+        got = {r.name: summary(r) for r in oh.results}
+        for i, s_ in enumerate(order):
+            if got.get(s_) != solo[s_]:
+                vio.append(dict(oracle="C20:history-dependent-result", disc="invariant-annotation:" + ("first" if i == 0 else "second"),
+                                detail=f"{s_} alone: {solo[s_]}; in the run {order}: {got.get(s_)}; --loop {sc.loop} for invariant_v(), "
+                                       f"--loop {other_loop} (annotation) for invariant_v2(); mask {sc.mask} K {sc.k}"))
+                break
+    faults = {}
+    for o in outs:
+        for k, nn in o.sim.fault_counts.items():
+            faults[k] = faults.get(k, 0) + nn
+    nq = sum(len(o.stub.history) for o in outs)
+    res = dict(violations=vio[:1], inconclusive=incon, faults=faults, probes={"kind_invariant_annotations": 1, "queries": nq, "tests_in_history": 2},
+               digest=oh.sim.digest(), shape=hashlib.sha1(rt).hexdigest()[:12] + repr((order, sc.loop, other_loop)), nontrivial=True,
+               sim_seconds=sum(o.sim.now for o in outs), steps=sum(o.sim.steps for o in outs),
+               descriptor=dict(mode="invariant-annotations", order=order, loop=sc.loop, other_loop=other_loop, solo={k: str(v) for k, v in solo.items()}))
+    if keep_log:
+        res["log"] = [("stdout", oh.stdout[-1500:])]
+    return res
+
+
+C20Check.run_invariant_annotations = _run_invariant_annotations
 
 
 def factory():
